@@ -98,7 +98,7 @@ impl Tok {
 
 fn int_leaf() -> BoxedStrategy<Leaf> {
     prop_oneof![
-        2 => prop::sample::select(vec!["0", "-0", "+7", "2147483647", "-2147483648", "007", "+0", "-1"]).prop_map(|s| s.to_string()),
+        2 => prop::sample::select(vec!["0", "-0", "+7", "2147483647", "-2147483648", "007", "+0", "-1", "000000000042", "+0002147483647", "-000000000000001", "+000000000000", "-0002147483648"]).prop_map(|s| s.to_string()),
         3 => gen::int_pool().prop_map(|v| v.to_string()),
     ]
     .prop_map(|text| {
@@ -205,6 +205,33 @@ fn judge_struct(c: &StructCase) -> CaseResult {
     other.exec.clear();
     if other != StateSpec::default() {
         return Err(Fail::new("C03/structure/other-stack-touched", format!("text {:?}: {}", text, StateSpec::default().diff(&other).unwrap_or_default())));
+    }
+    // classification depends on the instruction set that is passed in: with an EMPTY registry the
+    // same text must give the same tree with every instruction token classified as a name; then
+    // once more with the full registry (same thread, so nothing may be remembered between calls)
+    {
+        fn as_names(t: &ItemSpec) -> ItemSpec {
+            match t {
+                ItemSpec::List(v) => ItemSpec::List(v.iter().map(as_names).collect()),
+                ItemSpec::Instr(n) => ItemSpec::Name(n.clone()),
+                x => x.clone(),
+            }
+        }
+        let want_empty: Vec<ItemSpec> = want.iter().map(as_names).collect();
+        let r = guarded(|| {
+            let mut st = pushr::push::state::PushState::new();
+            let empty = pushr::push::instructions::InstructionSet::new();
+            PushParser::parse_program(&mut st, &empty, &text);
+            StateSpec::snapshot(&st).exec
+        })
+        .map_err(|(loc, msg)| Fail::new(format!("C03/structure/panic@{}", loc), format!("parse with an empty registry panicked: {} | text {:?}", msg, text)))?;
+        if r != want_empty {
+            return Err(Fail::new("C03/structure/empty-registry", format!("text {:?} parsed with an EMPTY instruction set gives [{}] (instruction tokens must be names)", text, r.iter().map(|x| format!("{:?}", x)).collect::<Vec<_>>().join(" | ").chars().take(300).collect::<String>())));
+        }
+        let again = parse_into(&StateSpec::default(), &text).map_err(|(loc, msg)| Fail::new(format!("C03/structure/panic@{}", loc), msg))?;
+        if again.exec != want {
+            return Err(Fail::new("C03/structure/registry-remembered-between-calls", format!("text {:?}: parsing with the full registry after an empty-registry parse gives a different tree", text)));
+        }
     }
     let mut classes = vec![];
     for t in &c.toks {
@@ -316,8 +343,8 @@ pub fn run(ctx: &Ctx) -> PropReport {
     rep.assumptions.push("unspecified, generated in (T) only: empty vector literals INT[] FLOAT[] BOOL[] and the tree built from unbalanced input; prefix tokens that are not closed by ']' are malformed literals and must be dropped".into());
     rep.assumptions.push("nesting depth <= 8 (quick) / 64 (thorough) in the generators; the deep-nesting probe is separate".into());
     let d = ctx.tier.pick(4u32, 8u32);
-    rep.push(run_sharded(ctx, "totality", ctx.tier.pick(200_000, 3_000_000), move || total_strategy(d), |(s, t): &(StateSpec, String)| judge_total(s, t), |(s, t)| json!({"text": t, "state": s.to_json()})));
-    rep.push(run_sharded(ctx, "structure", ctx.tier.pick(60_000, 1_000_000), move || struct_strategy(d, ctx_size(d)), judge_struct, |c| json!({"text": c.text(), "expected": c.toks.iter().filter_map(|t| t.expected()).map(|x| x.to_json()).collect::<Vec<_>>()})));
+    rep.push(run_sharded(ctx, "totality", ctx.tier.pick(400_000, 3_000_000), move || total_strategy(d), |(s, t): &(StateSpec, String)| judge_total(s, t), |(s, t)| json!({"text": t, "state": s.to_json()})));
+    rep.push(run_sharded(ctx, "structure", ctx.tier.pick(150_000, 1_000_000), move || struct_strategy(d, ctx_size(d)), judge_struct, |c| json!({"text": c.text(), "expected": c.toks.iter().filter_map(|t| t.expected()).map(|x| x.to_json()).collect::<Vec<_>>()})));
     if ctx.tier == Tier::Thorough {
         rep.push(crate::fuzzrun::campaign(ctx, "C03", "parse_text", 4_000_000, 256));
     }
